@@ -573,16 +573,21 @@ class Engine:
         st.nallocs += 1
         if size > (1 << 30):
             return NULL
-        if st.fault_alloc and st.failed_alloc == 0:
-            # fault fork: this very allocation fails on the forked path (exactly one failure per path)
-            st2 = st.fork(); st2.failed_alloc = st2.nallocs
-            st2.frames[-1].ip -= 1; st2.nallocs -= 1
-            st2.env = dict(st2.env); st2.env['fail_next_alloc'] = True
-            s.work.append(st2)
-        if st.env.get('fail_next_alloc'):
-            st.env = dict(st.env); st.env['fail_next_alloc'] = False
-            st.notes.append('alloc#%d (%d bytes) in %s failed' % (st.nallocs, size, st.frames[-1].fn.name))
-            return NULL
+        if st.fault_alloc:
+            # allocations are numbered from the moment faults were enabled (the native replay shim counts the same way)
+            env = st.env
+            if env.get('fail_next_alloc'):
+                k = env.get('fault_count', 0) + 1
+                st.env = dict(env); st.env['fail_next_alloc'] = False; st.env['fault_count'] = k
+                st.failed_alloc = k
+                st.notes.append('allocation #%d since faults were enabled (%d bytes) failed in %s' % (k, size, ' <- '.join(f.fn.name for f in reversed(st.frames[-6:]))))
+                return NULL
+            if st.failed_alloc == 0:
+                # fault fork: this very allocation fails on the forked path (exactly one failure per path)
+                st2 = st.fork(); st2.frames[-1].ip -= 1; st2.nallocs -= 1
+                st2.env = dict(st2.env); st2.env['fail_next_alloc'] = True
+                s.work.append(st2)
+            st.env = dict(st.env); st.env['fault_count'] = st.env.get('fault_count', 0) + 1
         oid = st.alloc(size, 'heap', "heap#%d(%s,%dB)" % (st.nallocs, st.frames[-1].fn.name if st.frames else '?', size), 0 if zero else None)
         return Ptr(oid, 0)
 
